@@ -19,7 +19,7 @@ func init() {
 		ID:      "C09",
 		Run:     runC09,
 		NeedSSA: true,
-		Level:   "Static analysis (bit-lane abstract interpretation of every packet-header encoder and decoder against RFC/IEEE bit layouts; typed-AST switch tables; write/read record comparison; symbolic size terms). Decides structural parts of the statement: lanes/<kind>/enc/<field>, lanes/<kind>/dec/<field> — on every path of the encoder each wire bit of the header carries the bit of the Go field that spec/packet_layout.json (transcribed from the RFC diagrams) puts there, reserved bits are 0, and on every successful path of the decoder each field bit is read from that wire bit and the bits above the field's width are 0; both sides are compared with the same layout, so for all in-range values of a packed group (all 2^8 / 2^16 combinations at once) decode(encode(h)) = h, neighbours are not disturbed, and encode(decode(w)) = w on the specified bits; word/<kind> — the LLDP TLV type/length word is packed and unpacked at type(7)|length(9); demux/<decoder>/<code> — the switch on ethertype / IPv4 protocol / IPv6 next header allocates the kind the table names for each code, required codes are present, the ethertype switched on is the one read after the VLAN tag (lanes of Ethernet on the tagged path), and each IPv6 extension case continues with that header's NextHeader and advances by that header's Len; mirror/<kind>/<field>, extent/<kind>, fresh, exhaust, retain — as C05/C06 for the header kinds (same field at same offset/width/order in encoder and decoder; size function ≡ bytes produced; list loops decode every element into a new value and keep it); presence/<kind>/<part> — the condition under which the encoder emits an optional part is one the decoder re-establishes when it finds the part. Not decided: equality of payload values beyond the records (bytes copied verbatim); checksums; count fields of hand-built values (premises of the statement); the contents of DHCP options (opaque bytes). DHCP, LLDP and the TLV kinds (io-style Read/Write codecs over a local bytes.Buffer) are covered by mirror, extent, nowrap and reject through the interpreter's stream model. mirror also has skipfill:<field> — a part the encoder always writes (options, payload) is filled by the decoder on every accepting path, so a header decoded into a used value does not keep old contents.",
+		Level:   "Static analysis (bit-lane abstract interpretation of every packet-header encoder and decoder against RFC/IEEE bit layouts; typed-AST switch tables; write/read record comparison; symbolic size terms). Decides structural parts of the statement: lanes/<kind>/enc/<field>, lanes/<kind>/dec/<field> — on every path of the encoder each wire bit of the header carries the bit of the Go field that spec/packet_layout.json (transcribed from the RFC diagrams) puts there, reserved bits are 0, and on every successful path of the decoder each field bit is read from that wire bit and the bits above the field's width are 0; both sides are compared with the same layout, so for all in-range values of a packed group (all 2^8 / 2^16 combinations at once) decode(encode(h)) = h, neighbours are not disturbed, and encode(decode(w)) = w on the specified bits; word/<kind> — the LLDP TLV type/length word is packed and unpacked at type(7)|length(9); demux/<decoder>/<code> — the switch on ethertype / IPv4 protocol / IPv6 next header allocates the kind the table names for each code, required codes are present, the ethertype switched on is the one read after the VLAN tag (lanes of Ethernet on the tagged path), and each IPv6 extension case continues with that header's NextHeader and advances by that header's Len; mirror/<kind>/<field>, extent/<kind>, fresh, exhaust, retain — as C05/C06 for the header kinds (same field at same offset/width/order in encoder and decoder; size function ≡ bytes produced; list loops decode every element into a new value and keep it); presence/<kind>/<part> — the condition under which the encoder emits an optional part is one the decoder re-establishes when it finds the part. Not decided: equality of payload values beyond the records (bytes copied verbatim); checksums; count fields of hand-built values (premises of the statement); the contents of DHCP options (opaque bytes). DHCP, LLDP and the TLV kinds (io-style Read/Write codecs over a local bytes.Buffer) are covered by mirror, extent, nowrap and reject through the interpreter's stream model. mirror also has skipfill:<field> — a part the encoder always writes (options, payload) is filled by the decoder on every accepting path, so a header decoded into a used value does not keep old contents. Also decided: errfail (as in C02): a record or header that cannot be decoded fails the whole, not a partial result with a nil error.",
 		Assumptions: []string{
 			"spec/packet_layout.json transcribes the RFC 791/793/768/792/826/2236/3376/8200 and IEEE 802.1Q/802.1AB diagrams",
 			"well-formed headers: every field within its declared width, IHL >= 5 (the statement's premise)",
